@@ -62,8 +62,14 @@ func implEval(text string, localOff int, hostSpec, dataWire string) (string, []s
 	select {
 	case r := <-ch:
 		return r.obs, r.fails
-	case <-time.After(10 * time.Second):
-		return "T", []string{"evaluation did not terminate within 10 s: " + text}
+	case <-time.After(15 * time.Second):
+	}
+	// not back yet: on a loaded machine that alone proves nothing - give it a much longer second chance
+	select {
+	case r := <-ch:
+		return r.obs, r.fails
+	case <-time.After(90 * time.Second):
+		return "T", []string{"evaluation did not terminate within 105 s: " + text}
 	}
 }
 
